@@ -120,9 +120,9 @@ func TestFault(t *testing.T) {
 			if fired > 0 {
 				l.Class = o.Sig
 			}
-			if samples < 1 && fired > 0 && len(o.Events) < 120 {
+			if samples < 1 && fired > 0 {
 				samples++
-				l.Sample = sampleOf(sc, o, 120)
+				l.Sample = sampleOf(sc, o, 80)
 			}
 			for i := range l.Viol {
 				l.Viol[i].Witness = map[string]any{"detail": l.Viol[i].Witness, "events": lastEvents(o.Events, l.Viol[i].Witness, 120)}
